@@ -1164,6 +1164,16 @@ def color_to_rgb_hex(color):
     return '#{0:02x}{1:02x}{2:02x}'.format(*_color_to_rgb(color))  # noqa UP030
 
 
+def _has_invalid_float_alpha(color):
+    """\
+    Returns if the provided color is a RGBA tuple with a float alpha value
+    outside of the range 0.0 .. 1.0 (``(0, 0, 0, 255.0) == (0, 0, 0, 255)``
+    but 255.0 is no valid alpha value).
+    """
+    return isinstance(color, tuple) and len(color) == 4 \
+        and isinstance(color[3], float) and not 0.0 <= color[3] <= 1.0
+
+
 def _color_is_black(color):
     """\
     Returns if the provided color represents "black".
@@ -1178,7 +1188,7 @@ def _color_is_black(color):
     except AttributeError:
         pass
     return color in ('#000', '#000000', 'black', (0, 0, 0), (0, 0, 0, 255),
-                     (0, 0, 0, 1.0))
+                     (0, 0, 0, 1.0)) and not _has_invalid_float_alpha(color)
 
 
 def _color_is_white(color):
@@ -1195,7 +1205,8 @@ def _color_is_white(color):
     except AttributeError:
         pass
     return color in ('#fff', '#ffffff', 'white', (255, 255, 255),
-                     (255, 255, 255, 255), (255, 255, 255, 1.0))
+                     (255, 255, 255, 255), (255, 255, 255, 1.0)) \
+        and not _has_invalid_float_alpha(color)
 
 
 def _color_to_rgb(color):
